@@ -4,7 +4,9 @@ from .common import generic_replay
 
 
 def run(tier):
-    return scans.scan_check("C11", ("INT.", "AHEAD."), {"INT"}, {"Sedov": ("sedov", {"INT"})}, tier)
+    return scans.scan_check("C11", ("INT.", "AHEAD."), {"INT"}, {"Sedov": ("sedov", {"INT"})}, tier,
+                            # every solution type and both special exponents (where the solver switches formulas) must have been exercised
+                            require_patterns=[("standard", "none"), ("singular", "none"), ("vacuum", "none"), ("vacuum", "omega2"), ("standard", "omega3")])
 
 
 def replay(path):
